@@ -24,6 +24,8 @@ def parseStep (st : String) : Option Step :=
   | ["a", srv, a] => match srv.toNat?, a.toNat? with
     | some srv, some a => some (.auth (srv % 2) a) | _, _ => none
   | ["d", srv, b] => srv.toNat?.map fun srv => .disable (srv % 2) (b = "1")
+  | ["v", srv, v] => match srv.toNat?, parseHexNat v with
+    | some srv, some v => some (.maxv (srv % 2) v) | _, _ => none
   | ["z", b] => some (.clientOff (b = "1"))
   | _ => none
 
